@@ -20,7 +20,7 @@ FEATS = dict(
     grids=["4x6h", "8x3h", "3xd_spring", "12h_partial", "4x6h_d", "4x6h_cet"],
     price_pairs=S.PRICE_PAIRS[:1],
     bases=["one", "two"],
-    extras=["mc", "ob", "dem", "plantfuel", "chp", "chpml", "linked"],
+    extras=["mc", "ob", "dem", "plantfuel", "chp", "chpml", "linked", "loop", "mcsame"],
     modes=["mono", "split:12h", "split:d"],
     caps=1, extra_costs=1, window=1, takes=1,
     freq=["12h"], periodicity=[("12h", None)],
